@@ -242,7 +242,16 @@ static void jbool(bool b) { fputs(b ? "true" : "false", stdout); }
 #define W(name, v) do { K(name); jw((int64_t)(v)); } while (0)
 #define C putchar(',')
 
+static int g_fuzz;            /* C08 mode (arbitrary bytes) */
+static int g_union_stats;     /* dumping statistics that live inside the page-header union */
 static void dump_stats(const parquet_statistics_t* s) {
+    if (g_fuzz && g_union_stats && !getenv("FZ_FOLLOW_UNION")) {
+        /* On malformed input header->type may select a union member the parser did not fill (e.g. type =
+         * DATA_V2 with a data_page_header field): its pointers are then reinterpreted integers. Following
+         * them would be a fault of this dump, not of the entry point under test.
+         * (FZ_FOLLOW_UNION=1 follows them anyway: shows what a consumer that trusts `type` would hit.) */
+        fputs("{}", stdout); return;
+    }
     putchar('{');
     K("max"); jbin(s->max_deprecated, s->max_deprecated_len); C;
     K("min"); jbin(s->min_deprecated, s->min_deprecated_len); C;
@@ -359,6 +368,7 @@ static void dump_fm(const parquet_file_metadata_t* m) {
     putchar('}');
 }
 static void dump_ph(const parquet_page_header_t* h) {
+    g_union_stats = 1;
     putchar('{');
     W("type", (int32_t)h->type); C;
     W("uncompressed", h->uncompressed_page_size); C;
@@ -391,12 +401,12 @@ static void dump_ph(const parquet_page_header_t* h) {
         fputs("}]", stdout);
     } else fputs("[]", stdout);
     putchar('}');
+    g_union_stats = 0;
 }
 
 /* ------------------------------------------------------------------ parse + dump */
 static uint8_t* exact_copy(const uint8_t* p, size_t n) { uint8_t* b = malloc(n ? n : 1); if (n) memcpy(b, p, n); return b; }
 
-static int g_fuzz;            /* C08 mode: no n-1 probe */
 static int g_last_st; static long g_last_used;
 /* prints " <status> <consumed> <json>" */
 static void parse_fm(const uint8_t* bytes, size_t n) {
